@@ -65,7 +65,7 @@ theorem lookupLastC_nodup (k : Bytes) : ∀ (ms : List (Bytes × Cst)),
     simp only [lookupLastC, valueOfM, lookup]
     by_cases hk : unquote k' = k
     · subst hk
-      have hnone : lookup (unquote k') (valueOfM ms) = none := (lookup_eq_none_iff _ _).mpr h1
+      have hnone : lookup (unquote k') (valueOfM ms) = none := (lookup_eq_none_iff_E _ _).mpr h1
       rw [hnone] at ih
       cases hl : lookupLastC (unquote k') ms with
       | none => simp
